@@ -571,11 +571,44 @@ def t_add(C, setter=False):
         pctx = type('E', (), {'gens': list(pc.generators), 'loops': []})()
         uctx = type('E', (), {'gens': list(uc.generators), 'loops': []})()
         vp, vu = cell_of(pc.elt, pctx), cell_of(uc.elt, uctx)
-        fp = C.field_of(pc.generators[0].iter)
-        R.check(vp is not None and bool(fp) and fp[1] == other and not pc.generators[0].ifs and purge[0].order < ups[0].order,
-                'CELL-SET', func, purge[0].node, 'old cells purged first', f'every ({name}, .) over self.{other} removed', src(pc))
-        R.check(vu is not None and derived_from_param(C, uc.generators[0].iter, 2) and not uc.generators[0].ifs,
-                'CELL-SET', func, ups[0].node, 'given cells added', f'({name}, .) for . in {seq}', src(uc))
+
+        def ranges(comp, var):
+            """('axis' | 'given', predicate over "var in the given collection") of a single-generator comprehension, or None."""
+            g = comp.generators[0]
+            fld = C.field_of(g.iter)
+            if fld and fld[1] == other:
+                dom = 'axis'
+            elif derived_from_param(C, g.iter, 2):
+                dom = 'given'
+            else:
+                return None
+            pols = []
+            for c_ in g.ifs:
+                inner, neg = strip_not(c_)
+                if not (isinstance(inner, ast.Compare) and len(inner.ops) == 1 and isinstance(inner.ops[0], (ast.In, ast.NotIn))
+                        and name_is(inner.left, var) and derived_from_param(C, inner.comparators[0], 2)):
+                    return None
+                pols.append(isinstance(inner.ops[0], ast.In) != neg)
+            return dom, (lambda S, pols=pols: all(S == p_ for p_ in pols))
+        rp = ranges(pc, vp) if vp is not None else None
+        ru = ranges(uc, vu) if vu is not None else None
+        if rp is None or ru is None:
+            R.unknown('CELL-SET', func, purge[0].node, 'cells of the name set to exactly the given collection',
+                      f'purge {src(pc)[:70]} / update {src(uc)[:70]} not in the recognised comprehension form')
+            return
+        # decide: for every name v of the other axis, afterwards (name, v) is a cell iff v is in the given collection -
+        # over the four cases (was a cell before?, is v given?)
+        purge_first = purge[0].order < ups[0].order
+        wrong = []
+        for O in (False, True):
+            for S in (False, True):
+                Pv = (rp[0] == 'axis' or S) and rp[1](S)
+                Uv = (ru[0] == 'axis' or S) and ru[1](S)
+                final = ((O and not Pv) or Uv) if purge_first else ((O or Uv) and not Pv)
+                if final != S:
+                    wrong.append({'was a cell': O, 'in the given collection': S, 'is a cell afterwards': final})
+        R.decided(not wrong, 'CELL-SET', func, purge[0].node, 'afterwards the name has exactly the given cells (old ones purged, given ones added)',
+                  f'({name}, .) present iff . in {seq}', f'{src(purge[0].node)[:80]}; {src(ups[0].node)[:80]}', extra={'differs': wrong[:2]} if wrong else None)
         return
     if not pm:
         C.absent('CELL-SET', func.node, 'cells written', f'cells of {name} set to exactly {seq}', 'no cell mutation')
@@ -946,7 +979,9 @@ def unique_rules(model, R):
             seen_key = seen_name
         else:
             call = [n for n in walk(func.body) if isinstance(n, ast.Call) and chain(n.func) and chain(n.func)[-1] == '_fromargs']
-            seen_key = src(call[0].args[0]) if call and call[0].args else None
+            from .common import fromargs_args
+            fa = fromargs_args(model, func, call[0]) if call else None
+            seen_key = src(fa[0]) if fa else None
         ok = seen_key is not None and adders == [seen_key] and seen_key in notin
         # the filter idiom was parsed (membership tests and a side-effecting recorder): a wrong recorder is a recognised slot
         R.check(ok, 'UNIQUE-INVARIANT', func, lc, f'{name}: dedup records every kept item in the set that becomes _seen',
@@ -1057,9 +1092,11 @@ def _unique_loop_form(R, func, name):
         becomes_items = any(isinstance(s_, ast.Assign) and any(chain(t_) == ['self', '_items'] for t_ in s_.targets) and name_is(s_.value, items_name)
                             for s_ in stmts(func.body))
     else:
-        call = [n for n in walk(func.body) if isinstance(n, ast.Call) and chain(n.func) and chain(n.func)[-1] == '_fromargs' and len(n.args) == 2]
-        becomes_seen = bool(call) and name_is(call[0].args[0], seen_name)
-        becomes_items = bool(call) and name_is(call[0].args[1], items_name)
+        call = [n for n in walk(func.body) if isinstance(n, ast.Call) and chain(n.func) and chain(n.func)[-1] == '_fromargs']
+        from .common import fromargs_args
+        fa = fromargs_args(model, func, call[0]) if call else None
+        becomes_seen = bool(fa) and name_is(fa[0], seen_name)
+        becomes_items = bool(fa) and name_is(fa[1], items_name)
     R.decided(becomes_seen and becomes_items and seen_name in ea and seen_name in ep and ea == ep, 'UNIQUE-INVARIANT', func, lp,
               f'{name}: dedup records every kept item in the set that becomes _seen',
               f'for x in ...: if x not in {seen_name}: {seen_name}.add(x); {items_name}.append(x)',
